@@ -3362,6 +3362,33 @@ static JanetEVGenericMessage janet_go_thread_subr(JanetEVGenericMessage args) {
     return args;
 }
 
+/* A thread message that will never be delivered still holds a reference on every shared abstract
+ * (thread channels, locks) that was marshalled into it. Read back what there is of it, in the order
+ * janet_go_thread_subr would, only to drop those references; the read ends in an error where the
+ * writing stopped. */
+static void janet_thread_message_discard(JanetBuffer *buffer, uint64_t flags) {
+    const uint8_t *nextbytes = buffer->data;
+    const uint8_t *endbytes = nextbytes + buffer->count;
+    const int uflags = JANET_MARSHAL_UNSAFE | JANET_MARSHAL_DECREF;
+    JanetTryState tstate;
+    JanetSignal signal = janet_try(&tstate);
+    if (signal == JANET_SIGNAL_OK) {
+        if (!(flags & 0x2)) janet_unmarshal(nextbytes, endbytes - nextbytes, uflags, NULL, &nextbytes);
+        if (flags & JANET_THREAD_SUPERVISOR_FLAG) janet_unmarshal(nextbytes, endbytes - nextbytes, uflags, NULL, &nextbytes);
+        if (!(flags & 0x4)) {
+            uint32_t count;
+            if ((size_t)(endbytes - nextbytes) < sizeof(count)) janet_panic("thread message incomplete");
+            memcpy(&count, nextbytes, sizeof(count));
+            nextbytes += sizeof(count);
+            if ((size_t)(endbytes - nextbytes) < (size_t) count * sizeof(JanetCFunRegistry)) janet_panic("thread message incomplete");
+            nextbytes += (size_t) count * sizeof(JanetCFunRegistry);
+        }
+        janet_unmarshal(nextbytes, endbytes - nextbytes, uflags, NULL, &nextbytes);
+        janet_unmarshal(nextbytes, endbytes - nextbytes, uflags, NULL, &nextbytes);
+    }
+    janet_restore(&tstate);
+}
+
 JANET_CORE_FN(cfun_ev_thread,
               "(ev/thread main &opt value flags supervisor)",
               "Run `main` in a new operating system thread, optionally passing `value` "
@@ -3384,26 +3411,40 @@ JANET_CORE_FN(cfun_ev_thread,
     void *supervisor = janet_optabstract(argv, argc, 3, &janet_channel_type, janet_vm.root_fiber->supervisor_channel);
     if (NULL != supervisor) flags |= JANET_THREAD_SUPERVISOR_FLAG;
 
-    /* Marshal arguments for the new thread. */
+    /* Marshal arguments for the new thread. The message lives in plain malloc memory because it is
+     * handed to another thread; the function or the value may not be marshallable, so marshalling
+     * runs under janet_try and a failed message is taken apart again before the error goes on. */
     JanetBuffer *buffer = janet_malloc(sizeof(JanetBuffer));
     if (NULL == buffer) {
         JANET_OUT_OF_MEMORY;
     }
     janet_buffer_init(buffer, 0);
-    if (!(flags & 0x2)) {
-        janet_marshal(buffer, janet_wrap_table(janet_vm.abstract_registry), NULL, JANET_MARSHAL_UNSAFE);
+    JanetTryState tstate;
+    JanetSignal signal = janet_try(&tstate);
+    if (signal == JANET_SIGNAL_OK) {
+        if (!(flags & 0x2)) {
+            janet_marshal(buffer, janet_wrap_table(janet_vm.abstract_registry), NULL, JANET_MARSHAL_UNSAFE);
+        }
+        if (flags & JANET_THREAD_SUPERVISOR_FLAG) {
+            janet_marshal(buffer, janet_wrap_abstract(supervisor), NULL, JANET_MARSHAL_UNSAFE);
+        }
+        if (!(flags & 0x4)) {
+            janet_assert(janet_vm.registry_count <= INT32_MAX, "assert failed size check");
+            uint32_t temp = (uint32_t) janet_vm.registry_count;
+            janet_buffer_push_bytes(buffer, (uint8_t *) &temp, sizeof(temp));
+            janet_buffer_push_bytes(buffer, (uint8_t *) janet_vm.registry, (int32_t) janet_vm.registry_count * sizeof(JanetCFunRegistry));
+        }
+        janet_marshal(buffer, argv[0], NULL, JANET_MARSHAL_UNSAFE);
+        janet_marshal(buffer, value, NULL, JANET_MARSHAL_UNSAFE);
     }
-    if (flags & JANET_THREAD_SUPERVISOR_FLAG) {
-        janet_marshal(buffer, janet_wrap_abstract(supervisor), NULL, JANET_MARSHAL_UNSAFE);
+    janet_restore(&tstate);
+    if (signal != JANET_SIGNAL_OK) {
+        Janet err = tstate.payload;
+        janet_thread_message_discard(buffer, flags);
+        janet_buffer_deinit(buffer);
+        janet_free(buffer);
+        janet_panicv(err);
     }
-    if (!(flags & 0x4)) {
-        janet_assert(janet_vm.registry_count <= INT32_MAX, "assert failed size check");
-        uint32_t temp = (uint32_t) janet_vm.registry_count;
-        janet_buffer_push_bytes(buffer, (uint8_t *) &temp, sizeof(temp));
-        janet_buffer_push_bytes(buffer, (uint8_t *) janet_vm.registry, (int32_t) janet_vm.registry_count * sizeof(JanetCFunRegistry));
-    }
-    janet_marshal(buffer, argv[0], NULL, JANET_MARSHAL_UNSAFE);
-    janet_marshal(buffer, value, NULL, JANET_MARSHAL_UNSAFE);
     if (flags & 0x1) {
         /* Return immediately */
         JanetEVGenericMessage arguments;
